@@ -1741,5 +1741,72 @@ end Goml.Gen
 
 EXTRACTORS += [c01pipe_gen_pipeline_order]
 
+# ---------------------------------------------------------------- gocomp: anchors of go/compile.rs the model was written against
+def gocomp_fn_body(text, name):
+    return block_after(text, r"\bfn\s+" + re.escape(name) + r"\b[^{;]*\{", f"fn {name}")
+
+def gocomp_tables():
+    comp = src("crates/compiler/src/go/compile.rs")
+    goast = src("crates/compiler/src/go/goast.rs")
+    rt = src("crates/compiler/src/go/runtime.rs")
+    cexpr = gocomp_fn_body(comp, "compile_cexpr")
+    i = cexpr.find("anf::CExpr::ECall")
+    if i < 0:
+        raise Exception("compile_cexpr: the ECall arm is gone")
+    call_arm = cexpr[i:cexpr.find("anf::CExpr::EProj", i)]
+    # callee names the ECall arm (and the `missing` case of compile_aexpr_assign) compares with
+    special = []
+    for m in re.finditer(r'\*?name\s*==\s*"(\w+)"', call_arm):
+        if m.group(1) not in special:
+            special.append(m.group(1))
+    assign = gocomp_fn_body(comp, "compile_aexpr_assign")
+    for m in re.finditer(r'name\s*==\s*"(\w+)"', assign):
+        if m.group(1) not in special:
+            special.append(m.group(1))
+    if len(special) < 5:
+        raise Exception(f"compile_cexpr ECall arm: callee tests not found ({special})")
+    # `tast_ty_to_go_type` never answers TVoid  =>  compile_fn's TVoid arm (compile_aexpr) is dead
+    conv = gocomp_fn_body(goast, "tast_ty_to_go_type")
+    void_result = "TVoid" in conv
+    fn = gocomp_fn_body(comp, "compile_fn")
+    if "goty::GoType::TVoid => (None, compile_aexpr(" not in fn.replace("\n", " ") and "TVoid" not in fn:
+        raise Exception("compile_fn: the TVoid arm is gone")
+    gens = re.findall(r'gensym\.gensym\("(\w+)"\)', comp)
+    # order of the runtime functions
+    mk = gocomp_fn_body(rt, "make_runtime")
+    rtfns = re.findall(r"Item::Fn\((\w+)\(\)\)", mk)
+    if len(rtfns) < 10:
+        raise Exception("make_runtime: Item::Fn(...) list not found")
+    # the three statement lowerings that exist
+    lowerings = [n for n in ("compile_aexpr_effect", "compile_aexpr_assign", "compile_aexpr", "compile_while", "compile_match_branches",
+                             "compile_cexpr_effect", "compile_go", "compile_fn", "go_file") if re.search(r"\bfn\s+" + n + r"\b", comp)]
+    return special, void_result, gens, rtfns, lowerings
+
+def gocomp_gen_tables():
+    special, void_result, gens, rtfns, lowerings = gocomp_tables()
+    ls = lambda xs: "[" + ", ".join(lstr(x) for x in xs) + "]"
+    write_if_changed("GoCompTables.lean", f"""/- GENERATED by tools/extract.py (gocomp_gen_tables) from crates/compiler/src/go/compile.rs, goast.rs, runtime.rs — do not edit; regenerated on every ./check run -/
+namespace Goml.Gen
+
+/-- callee names `compile_cexpr` (ECall arm) and `compile_aexpr_assign` test for, in source order -/
+def gocompSpecialCallees : List String := {ls(special)}
+
+/-- does `tast_ty_to_go_type` mention `TVoid`?  (`false`: the `TVoid` arm of `compile_fn`, i.e. `compile_aexpr`, is dead) -/
+def gocompTyToGoMentionsVoid : Bool := {"true" if void_result else "false"}
+
+/-- prefixes passed to `Gensym::gensym` in compile.rs, in source order -/
+def gocompGensymPrefixes : List String := {ls(gens)}
+
+/-- the functions `make_runtime` emits, in order -/
+def gocompRuntimeFns : List String := {ls(rtfns)}
+
+/-- the lowering functions of compile.rs the model mirrors (or, for `compile_aexpr`, declares dead) -/
+def gocompLoweringFns : List String := {ls(lowerings)}
+
+end Goml.Gen
+""")
+
+EXTRACTORS += [gocomp_gen_tables]
+
 if __name__ == "__main__":
     main()
